@@ -32,3 +32,14 @@ Proof.
   - cbn. pose proof (sqrt_lt_R0 var Hv). lra.
   - rewrite Rops_two. cbn. lra.
 Qed.
+
+(* the Box-Muller pair over the reals, as documented: sqrt(-2 ln u) cos(2 pi v) sd + mean and the
+   sin twin *)
+Theorem box_muller_real (mean var u v : R) :
+  box_muller Rops (mkGaussian mean var) u v =
+  (sqrt (-2 * ln u) * cos (2 * PI * v) * sqrt var + mean,
+   sqrt (-2 * ln u) * sin (2 * PI * v) * sqrt var + mean).
+Proof.
+  unfold box_muller. rewrite Rops_two. cbn.
+  replace (- (2)) with (-2) by lra. reflexivity.
+Qed.
